@@ -559,6 +559,29 @@ theorem C08_gen_reader_types (m : MatrixModel) (text : Bool) (flags : Nat) :
   rw [getD_map_range _ _ _ (vperm_lt m hj)]
   exact C08_types m text flags j hj
 
+/-- the model's `readable` (does the reader accept the `sum` node the feeder writes) is the GENERATED arity test of
+`NLReader::ReadNumArgs` with the generated default minimum `MIN_ITER_ARGS`; with `C08_readable` the generated test never fails on
+what the (padded) writer produces.  That the `sum` case of `ReadNumericExpr` calls `ReadNumArgs()` with the default is sampled. -/
+theorem C08_gen_readable (m : MatrixModel) :
+    readable m = (decide (m.Q.nnz = 0) || !readNumArgsFails (sumArity m) minIterArgs) ∧
+    (m.Q.nnz ≠ 0 → readNumArgsFails (sumArity m) minIterArgs = false) := by
+  have h : (!readNumArgsFails (sumArity m) minIterArgs) = decide (3 ≤ sumArity m) := by
+    unfold readNumArgsFails minIterArgs
+    by_cases h3 : 3 ≤ sumArity m
+    · have : ¬ ((sumArity m : Int) < 3) := by omega
+      simp [h3, this]
+    · have : ((sumArity m : Int) < 3) := by omega
+      simp [h3, this]
+  constructor
+  · unfold readable; rw [h]
+  · intro hn
+    have hr := C08_readable m
+    unfold readable at hr
+    simp only [Bool.or_eq_true, decide_eq_true_eq, hn, false_or] at hr
+    have : decide (3 ≤ sumArity m) = true := by simpa using hr
+    rw [← h] at this
+    simpa using this
+
 /-- instance: the header of the library's 6-variable MIQP (nlvo 3, nlvoi 1, nbv 1, niv 1) -/
 example : (addVariables 6 0 3 0 1 1 0 0 1).map varTypesOf = some [false, false, true, false, true, true] := by decide
 /-- an inconsistent header (more nonlinear variables than variables) makes the generated reader throw -/
